@@ -111,3 +111,42 @@ Fixpoint sami_events_unfixed (caps : list (Q * Q)) (last : option Z) (i : nat) :
        | None => []
        end) ++ SCue time i :: sami_events_unfixed t (Some (sami_ms e)) (S i)
   end.
+
+(* ---- cue structure of the DFXP / MicroDVD / WebVTT writers at caption-list level ----------------- *)
+(* DFXPWriter.write: for caption in captions: div.append(_recreate_p_tag(caption)) - begin, end *)
+Definition dfxp_tokens (caps : list caption) : list (str * str) :=
+  map (fun c => (dfxp_ts (c_start c), dfxp_ts (c_end c))) caps.
+(* MicroDVDWriter._recreate_lang: one {start}{end} line per caption *)
+Definition mdvd_tokens (caps : list caption) : list (str * str) :=
+  map (fun c => (mdvd_token (c_start c), mdvd_token (c_end c))) caps.
+
+(* WebVTTWriter._group_cues_by_layout on the node kinds that matter for grouping:
+   TEXT with its layout (None or an opaque truthy layout), STYLE (does it emit a tag), BREAK *)
+Inductive vnode := VText (layout : option Z) | VStyle (emits : bool) | VBreak.
+
+Definition opt_z_eqb (a b : option Z) : bool :=
+  match a, b with Some x, Some y => x =? y | None, None => true | _, _ => false end.
+
+(* state: closed groups, is s non-empty, current_layout *)
+Definition vtt_group_step (st : nat * bool * option Z) (n : vnode) : nat * bool * option Z :=
+  let '(g, ne, cur) := st in
+  match n with
+  | VText l =>
+      (* if s and current_layout and node.layout_info != current_layout: close the group *)
+      let push := ne && match cur with Some c => negb (opt_z_eqb l (Some c)) | None => false end in
+      ((if push then S g else g), true, l)
+  | VStyle e => (g, ne || e, cur)
+  | VBreak => (g, true, cur)
+  end.
+
+Definition vtt_group_count (nodes : list vnode) : nat :=
+  match nodes with
+  | [] => O
+  | _ => let '(g, ne, _) := fold_left vtt_group_step nodes (O, false, None) in if ne then S g else g
+  end.
+
+(* _convert_caption: one timing line per layout group, all with the caption's timespan *)
+Definition vtt_cap_tokens (c : caption) (nodes : list vnode) : list (str * str) :=
+  repeat (vtt_ts (c_start c), vtt_ts (c_end c)) (vtt_group_count nodes).
+Definition vtt_tokens (caps : list (caption * list vnode)) : list (str * str) :=
+  concat (map (fun cn => vtt_cap_tokens (fst cn) (snd cn)) caps).
